@@ -37,7 +37,16 @@ def _is_new(g, ref) -> bool:
     r = ref.get(g.module.relpath)
     if r is None:
         return False   # a whole new module: not an extraction from an anchored function
-    return g.qualname not in r
+    if g.qualname in r:
+        return False
+    # a new function that appears while reference functions of the same scope have vanished is a rename / merge of those (e.g. two sibling kernels folded into one
+    # with a sign argument), not an extraction from an anchored function: it stays a function of its own, which the rules find by its role (call sites)
+    scope = g.qualname.rsplit(".", 1)[0] + "." if "." in g.qualname else ""
+    cur = {h.qualname for h in g.module.all_funcs}
+    for q in r:
+        if q not in cur and (q.rsplit(".", 1)[0] + "." if "." in q else "") == scope and "<locals>" not in q:
+            return False
+    return True
 
 
 _is_new_private = _is_new   # (older name)
